@@ -51,7 +51,7 @@ func C11(tier string) {
 	var states, transitions, nontrivial int64
 	perSys := map[string]any{}
 	for _, sys := range c11Systems {
-		d, rejected := buildSetDomain(sys, level)
+		d, rejected := buildSetDomain(sys, level, dom.RoundTripExtras(sys)...)
 		n := len(d.cons)
 		if n < 20 {
 			core.Harness("C11 %v: constraint domain collapsed (%d)", sys, n)
